@@ -9,7 +9,7 @@ CONSTANTS
   Targets <- TargetsTwo
   MaxRec = 1
   MaxFatal = 1
-  Timer = "none"
+  Timer = "first"
   EmitMode = "state"
   Record = TRUE
   Eager = TRUE
